@@ -6,6 +6,7 @@
 //     re-applied by a descending loop,
 //   - which delegate vm.AddNewLock (core/vm/contracts.go) puts into oldLockupData,
 //   - which undo records StateProcessor.Process and HeaderChain.Finalize write.
+//
 // Model/C10.v carries the obligations (rollback_order_ok, key_lengths_ok, undo_records_written)
 // and selects the AddNewLock variant the source has.
 package main
